@@ -26,6 +26,8 @@ def calls(rng, n, uni):
     out = []
     out.append("fold %s %d" % (L[:60] if n <= 5 else lst(v[:5]), rng.randrange(5)))
     out.append("foldrev %s %d" % (lst(v[:5]), rng.randrange(5)))
+    out.append("foldpanic %s %d %d" % (lst(v[:5]), rng.randrange(5), rng.randrange(0, 7)))      # the accumulator panics on its k-th call
+    out.append("foldrevpanic %s %d %d" % (lst(v[:5]), rng.randrange(5), rng.randrange(0, 7)))
     out += ["map " + L, "maperr %s %d" % (L, rng.randrange(-1, n + 1)), "filter %s %d %d" % (L, m, r), "any %s %d %d" % (L, m, r), "all %s %d %d" % (L, m, r),
             "indexfunc %s %d %d" % (L, m, r), "index %s %d" % (L, rng.randrange(uni + 1)), "contains %s %d" % (L, rng.randrange(uni + 1)),
             "containsfunc %s %d %d" % (L, rng.randrange(uni + 1), rng.choice([m, m, 0])), "distinct " + L, "distinctfunc %s %d" % (L, rng.choice([m, m, 0])),
